@@ -205,6 +205,29 @@ func c4Flat(e *c4Expr) bool {
 	return marked <= 1
 }
 
+// fragment of C04_default_unmarked: no mark anywhere (any nesting)
+func c4MarkFree(e *c4Expr) bool { return !c4HasMark(e) }
+
+// fragment of C04_default_nested_scalars (Expr.NestedSingle): atoms unified with exactly ONE
+// disjunction whose terms are mark-free below their own mark (nested to any depth)
+func c4NestedSingle(e *c4Expr) bool {
+	var cs []*c4Expr
+	c4Conjuncts(e, &cs)
+	chains := 0
+	for _, c := range cs {
+		if c.kind != 2 {
+			continue
+		}
+		chains++
+		for _, t := range c.terms {
+			if c4HasMark(t.e) {
+				return false
+			}
+		}
+	}
+	return chains == 1
+}
+
 // shape classes of the known deviations (checked on every node of the expression)
 func c4Shape(e *c4Expr) (collapse, multiMarked, markedNested bool) {
 	var walk func(e *c4Expr)
@@ -698,6 +721,7 @@ func (w *c4Worker) accept(v cue.Value) *big.Int {
 
 type c4Obs struct {
 	vals, defs []string // masks of the disjuncts / of the first NumDefaults disjuncts
+	order      string   // masks of Disjunction.Values in the implementation's order + NumDefaults
 	has        bool
 	acc, dacc  string
 	cls        string
@@ -762,6 +786,11 @@ func (u *c4Universe) observe(w *c4Worker, src string) (o c4Obs) {
 					ds = append(ds, m)
 				}
 			}
+			os := make([]string, len(vs))
+			for i, m := range vs {
+				os[i] = m.String()
+			}
+			o.order = fmt.Sprintf("values=%s numDefaults=%d", strings.Join(os, "."), dj.NumDefaults)
 			o.vals, o.defs = []string{c4SortedMasks(vs)}, []string{c4SortedMasks(ds)}
 		} else {
 			k := c4Key(v)
@@ -770,11 +799,41 @@ func (u *c4Universe) observe(w *c4Worker, src string) (o c4Obs) {
 				m = u.mask[id]
 			}
 			o.vals, o.defs = []string{m.String()}, []string{"-"}
+			o.order = fmt.Sprintf("values=%s numDefaults=0", m.String())
 		}
 	} else {
 		o.vals, o.defs = []string{"-"}, []string{"-"}
+		o.order = "values=- numDefaults=0"
 	}
 	return o
+}
+
+// canonical (sorted) list of "<disjunct> closed=<bool> default=<bool>" of an evaluated expression
+func c4ClosedObs(ctx *cue.Context, src string) (out string) {
+	defer func() {
+		if r := recover(); r != nil {
+			out = "panic"
+		}
+	}()
+	v := ctx.CompileString(src)
+	if v.Validate() != nil {
+		return "error"
+	}
+	vx := value.Vertex(v).DerefValue()
+	oc := value.OpContext(v)
+	one := func(x cue.Value, def bool) string {
+		return fmt.Sprintf("%s closed=%v default=%v", c4Key(x), !x.Allows(cue.Str("zzzz")), def)
+	}
+	var ss []string
+	if dj, ok := vx.BaseValue.(*adt.Disjunction); ok {
+		for i, x := range dj.Values {
+			ss = append(ss, one(value.Make(oc, x), i < dj.NumDefaults))
+		}
+	} else {
+		ss = append(ss, one(v, false))
+	}
+	sort.Strings(ss)
+	return strings.Join(ss, " | ")
 }
 
 // ---------------------------------------------------------------- generators
@@ -1036,6 +1095,21 @@ func runC04(c *Cfg) {
 		exprs = append(exprs, e)
 	}
 
+	// Closed structs are not part of the universe (see notes/C04.md), but the documented
+	// witnesses of the known finding `closed-struct-in-left-operand` are replayed on every run:
+	// & must be commutative on (disjunct, closedness, is-default) sets.
+	if !c.Focus {
+		for _, w := range [][2]string{
+			{"({a: int} | *close({a: int})) & ({a: 1} | {b: 1})", "({a: 1} | {b: 1}) & ({a: int} | *close({a: int}))"},
+			{"({a: 1} | *close({a: 1})) & ({a: 1} | close({a: 1}))", "({a: 1} | close({a: 1})) & ({a: 1} | *close({a: 1}))"},
+		} {
+			a, b := c4ClosedObs(ctx0, w[0]), c4ClosedObs(ctx0, w[1])
+			c.Direct(a == b, "closed-struct-in-left-operand",
+				"unification is not commutative (closedness): "+w[0]+" = "+a+"  versus  "+w[1]+" = "+b, w[0])
+			c.Count("closedness-witness")
+		}
+	}
+
 	// evaluate in parallel, emit in order
 	type result struct {
 		src, rpn   string
@@ -1146,14 +1220,30 @@ func runC04(c *Cfg) {
 		implSpec := fmt.Sprintf("acc=%s dacc=%s cls=%s", o.acc, o.dacc, o.cls)
 		if !c.Focus {
 			cl := "I"
-			if rs.flat {
-				cl = "O" // inside the fragment the model's answer is proved to be the spec's
+			if rs.flat || (!rs.boundy && (c4MarkFree(e) || c4NestedSingle(e))) {
+				// inside the proved fragments (C04_default_partial, C04_default_unmarked,
+				// C04_default_nested_scalars) the model's answer is proved to be the spec's
+				cl = "O"
+				if !rs.flat {
+					c.Count("fragment:nested-proved")
+				}
 			}
-			if rs.nn && (rs.flat || !rs.boundy) {
+			if rs.flat || !rs.boundy {
+				// (expressions with marks nested inside marked disjunctions are outside the
+				// SPEC claim, but the transcription follows the implementation there too)
 				c.Op(cl, "model "+rs.rpn+" "+cb, implModel)
+				// Disjunction.Values element by element in the implementation's order:
+				// appendDisjunct's insertion order + finalizeDisjunctions' swap loop
+				c.Op("I", "order "+rs.rpn, o.order)
+				c.Count("order-compared")
+				if !rs.nn {
+					c.Count("model-compared-with-nested-marks")
+				}
 			} else {
-				// marks nested inside marked disjunctions are outside the claim: only the
-				// disjunct values (C04_values holds for every tree) are compared
+				// non-flat expressions with bound atoms: the evaluator validates bounds late
+				// (`1 & >1` survives the intermediate cross products as a phantom disjunct and
+				// keeps leftDropsDefault false), which a meet-semilattice cannot express: only
+				// the disjunct values (C04_values holds for every tree) are compared
 				c.Op("I", "mvals "+rs.rpn+" "+u.pbits.String(), fmt.Sprintf("vals=%s acc=%s", o.vals[0], o.acc))
 			}
 			if i%50 == 0 {
@@ -1178,7 +1268,7 @@ func runC04(c *Cfg) {
 						}
 					}
 				}
-				c.Op("I", "class "+rs.rpn, fmt.Sprintf("wf=true nn=%v flat=%v chains=%d marked=%d", rs.nn, flatConj && nm <= 1, ch, nm))
+				c.Op("I", "class "+rs.rpn, fmt.Sprintf("wf=true nn=%v flat=%v chains=%d marked=%d markfree=%v nested1=%v", rs.nn, flatConj && nm <= 1, ch, nm, c4MarkFree(e), c4NestedSingle(e)))
 			}
 		}
 		if rs.nn {
